@@ -429,6 +429,10 @@ def _den(t, env):
             parts = [_den(x, e) for x in t.terms]
             vals.append(parts[0] if len(parts) == 1 else _fold(t.bin_op, parts))
         return np.asarray(_fold(t.red_op, vals))
+    if type(t).__name__ == "Function":
+        # the RAW python function on owned copies of the operands' data — never through funsor's one-slot memo
+        vals = [np.array(_den(a, env), copy=True) for a in t.args]
+        return np.asarray(_raw_call(t.fn, vals))
     if type(t).__name__ == "Constant":
         return _den(t.arg, env)              # constant w.r.t. its const inputs: they are ignored
     if type(t).__name__ == "Delta":
@@ -452,6 +456,16 @@ def _den(t, env):
                 acc = np.asarray(t.op(acc, _den(t.source, e)))
         return acc
     raise OracleUnsupported(type(t).__name__)
+
+
+def _raw_call(fn, vals):
+    import functools
+    if isinstance(fn, functools.partial) and getattr(fn.func, "__name__", "") == "_select":
+        inner, i = fn.args[0], fn.args[1]
+        return _raw_call(inner, vals)[i]
+    if type(fn).__name__ == "_Memoized":
+        return fn.fn(*vals)
+    return fn(*vals)
 
 
 def ser_opname(op):
